@@ -102,7 +102,7 @@ def atom_truth(lf, pred):
 def is_cl_zero(t):
     # Eq(content_length(headers of pending), 0)
     if t[0] == "bin" and t[1] in ("Eq", "Ne") and const_of(t[3]) == 0:
-        x = look(t[2])
+        x = _strip_casts(t[2])      # `content_length == 0` or `content_length as usize == 0`
         return is_call(x, "common::headers::Headers::content_length") and pending_req(x)
     return False
 
@@ -115,7 +115,7 @@ def cl_zero_truth(lf):
             v = tv if t[1] == "Eq" else (None if tv is None else not tv)
         else:
             # `match content_length { 0 => .., n => .. }`: a switch on the value itself
-            x = look(t)
+            x = _strip_casts(t)
             if is_call(x, "common::headers::Headers::content_length") and pending_req(x):
                 if c == ("eq", 0):
                     v = True
@@ -124,15 +124,40 @@ def cl_zero_truth(lf):
     return v
 
 
+def _strip_casts(t):
+    t = look(t)
+    while t[0] == "cast":
+        t = look(t[1])
+    return t
+
+
+def is_len_term(t):
+    """exactly the declared length (through casts), not an expression over it"""
+    return is_call(_strip_casts(t), "common::headers::Headers::content_length")
+
+
+def is_lim_term(t):
+    x = _strip_casts(t)
+    return x[0] == "field" and x[3] == "payload_max_size"
+
+
+def _mentions_len(t):
+    return any(is_call(look(s), "common::headers::Headers::content_length") for s in subterms(t) if isinstance(s, tuple))
+
+
+def _mentions_lim(t):
+    return any(isinstance(s, tuple) and s and s[0] == "field" and s[3] == "payload_max_size" for s in subterms(t))
+
+
 def is_size_cmp(t):
     if t[0] != "bin" or t[1] not in ("Gt", "Lt", "Ge", "Le"):
         return False
-    return any(is_call(look(s), "common::headers::Headers::content_length") for s in subterms(t) if isinstance(s, tuple)) and any(
-        isinstance(s, tuple) and s and s[0] == "field" and s[3] == "payload_max_size" for s in subterms(t))
+    return _mentions_len(t) and _mentions_lim(t)
 
 
 def size_exceeded_truth(lf):
-    """Truth of `content_length as usize > payload_max_size` on this path (normalising the encodings)."""
+    """Truth of `content_length as usize > payload_max_size` on this path (normalising the encodings).  The operands must be
+    the length and the limit themselves: `length + 1 > limit` is another comparison and is reported as such."""
     v = None
     for (t, c, _bb) in lf.conds:
         if is_size_cmp(t):
@@ -140,10 +165,14 @@ def size_exceeded_truth(lf):
             if tv is None:
                 continue
             a, b = look(t[2]), look(t[3])
-            a_is_len = any(is_call(look(s), "common::headers::Headers::content_length") for s in subterms(a) if isinstance(s, tuple))
             op = t[1]
-            if not a_is_len:
+            if is_len_term(a) and is_lim_term(b):
+                pass
+            elif is_lim_term(a) and is_len_term(b):
                 op = {"Gt": "Lt", "Lt": "Gt", "Ge": "Le", "Le": "Ge"}[op]
+            else:
+                v = ("wrong-operator", "the comparison is not between the declared length and the limit themselves")
+                continue
             # now op relates length ? limit
             if op == "Gt":
                 v = tv
@@ -160,15 +189,15 @@ def size_exceeded_truth(lf):
         elif is_call(x, "is_none", "is_some") and x[2] and is_call(look(x[2][0]), "checked_sub") and truth(c) is not None:
             some = truth(c) if last_seg(x[1]) == "is_some" else not truth(c)
             x = look(x[2][0])
-        if some is None or len(x[2]) != 2:
+        if some is None or len(x[2]) != 2 or not (_mentions_len(x) and _mentions_lim(x)):
             continue
-        has_len = lambda y: any(is_call(look(s_), "common::headers::Headers::content_length") for s_ in subterms(y) if isinstance(s_, tuple))
-        has_lim = lambda y: any(isinstance(s_, tuple) and s_ and s_[0] == "field" and s_[3] == "payload_max_size" for s_ in subterms(y))
         a, b = x[2]
-        if has_lim(a) and has_len(b) and not has_len(a) and not has_lim(b):
+        if is_lim_term(a) and is_len_term(b):
             v = not some
-        elif has_len(a) and has_lim(b):
+        elif is_len_term(a) and is_lim_term(b):
             v = ("wrong-operator", "length.checked_sub(limit) succeeds for length >= limit")
+        else:
+            v = ("wrong-operator", "the subtraction is not between the limit and the declared length themselves")
     return v
 
 
